@@ -166,9 +166,11 @@ def part_a(chk, quick):
     chk.note("urllib_fragment_differs_from_text_after_first_hash", envfrag_bad[0])
     # live scheme pattern vs documented automaton
     import ZConfig.loader
-    rx = ZConfig.loader.BaseLoader._pathsep_rx
+    rx = getattr(ZConfig.loader.BaseLoader, "_pathsep_rx", None)
     Aset = list("aZ1-+.:/\\#_ ") + ["é"]
     try:
+        if rx is None:      # module-private; isPath itself is checked by the enumeration above
+            raise redfa.Unsupported("pattern object not found")
         d = redfa.dfa(rx, Aset)
         redfa.selfcheck(rx, d, Aset, 3)
     except redfa.Unsupported as e:
